@@ -42,6 +42,24 @@ func DrawConfig(t *rapid.T, label string, big bool) Config {
 		c.N = pick(append([]int{0, 2}, rawSizes...), rawBig, 3, 300)
 	case "buffer":
 		c.N = pick(rawSizes, rawBig, 3, 300)
+		// spare capacity behind the slice: growth that still fits the caller's
+		// array, in particular across a header-reservation threshold (buffers
+		// well below 128 / 65536 bytes growing to the next power of two)
+		switch rapid.IntRange(0, 5).Draw(t, label+".spare") {
+		case 1:
+			c.Spare = 1
+		case 2:
+			c.Spare = 50
+		case 3:
+			c.Spare = c.N
+		case 4, 5:
+			c.Spare = 70000
+			if useBig {
+				c.N = rapid.SampledFrom([]int{33000, 50000, 65000, 65530}).Draw(t, label+".sparebig")
+			} else if rapid.Bool().Draw(t, label+".sparesmall") {
+				c.N = rapid.SampledFrom([]int{20, 50, 66, 70, 100, 110, 120, 128, 130}).Draw(t, label+".sparen")
+			}
+		}
 	case "size":
 		c.N = pick(append([]int{0}, payloadSizes...), payloadBig, 1, 300)
 	case "get":
